@@ -147,6 +147,39 @@ Fixpoint tok_go (in_brace : bool) (acc : text) (s : text) : list text :=
   end.
 Definition tokenize (s : text) : list text := tok_go false [] s.
 
+(* A second, declarative reading of the same regular expression, used only as the specification of [tokenize]
+   (Proofs/CatIO.v: tokenize_findall): at each position try the alternatives in order, take the first that
+   matches, resume after the match; if none matches skip one character.
+     "{" followed by the maximal run d of [\d,] and "}"  : alternative 1 when d is non-empty, alternative 3
+                                                            ("{}") when d is empty — the same token shape;
+     a run character                                      : alternative 2, the maximal run;
+     anything else (including a "{" not closed after its run): no alternative matches here.
+   Fuel = number of characters + 1 is never exhausted. *)
+Fixpoint span_run (s : text) : text * text :=
+  match s with
+  | c :: r => if is_run c then let '(d, t) := span_run r in (c :: d, t) else ([], s)
+  | [] => ([], [])
+  end.
+Fixpoint findall_ref (fuel : nat) (s : text) : list text :=
+  match fuel with
+  | O => []
+  | S f =>
+    match s with
+    | [] => []
+    | c :: r =>
+      if (c =? 123)%N then
+        let '(d, t) := span_run r in
+        match t with
+        | 125%N :: t' => (123%N :: d ++ [125%N]) :: findall_ref f t'
+        | _ => findall_ref f r
+        end
+      else if is_run c then
+        let '(d, t) := span_run s in d :: findall_ref f t
+      else findall_ref f r
+    end
+  end.
+Definition findall (s : text) : list text := findall_ref (S (List.length s)) s.
+
 (* sequence a list of results *)
 Fixpoint rseq {T} (l : list (result T)) : result (list T) :=
   match l with
